@@ -528,6 +528,143 @@ theorem quiet_eq_cluster_partial (cfg : Cfg) (p : Obj → Bool) (c0 : Cluster) (
   rw [watchAll_spec] at h2
   exact h2
 
+/-- the filter predicate of `specMatching` -/
+def specCond (mc : MonCfg) (w : World) (o : Obj) : Bool :=
+  mc.pred none none o &&
+  (mc.names.isEmpty || mc.names.contains o.key.name) &&
+  (if mc.nsSel then nsMatches mc w o.key.ns else mc.nss.isEmpty || mc.nss.contains o.key.ns)
+
+theorem specMatching_eq (mc : MonCfg) (w : World) : specMatching mc w = w.objs.filter (specCond mc w) := rfl
+
+/-- The scopes of a started monitor's informers cover exactly the binding's selectors. -/
+theorem informers_cover (mc : MonCfg) (s : MState) (h : MS mc s) (hinv : MInv mc s.m) (o : Obj) :
+    (∃ i ∈ s.m.informers, mc.pred i.ns i.name o = true) ↔ specCond mc s.w o = true := by
+  obtain ⟨_, hm, hv⟩ := h
+  have hns : ∀ n : Nat, mc.pred (some n) none o = true ↔ (mc.pred none none o = true ∧ o.key.ns = n) := by
+    intro n
+    rw [pred_eq]
+    simp [nsok, nmok]
+  unfold specCond
+  cases hsel : mc.nsSel with
+  | true =>
+    have hnil : mc.namespaces = [] := by simp [MonCfg.namespaces, hsel]
+    simp only [if_true, Bool.and_eq_true]
+    constructor
+    · rintro ⟨i, hi, hp⟩
+      rcases (mem_informers s.m i).1 hi with hi | ⟨p, hpv, hi⟩
+      · have := (hm.scover o).1 ⟨i, hi, hp⟩
+        rw [hnil] at this
+        obtain ⟨⟨ns, hns', _⟩, _⟩ := this
+        cases hns'
+      · obtain ⟨h1, h2⟩ := (hm.vcover p hpv o).1 ⟨i, hi, hp⟩
+        obtain ⟨h3, h4⟩ := (hns p.1).1 h1
+        refine ⟨⟨h3, h2⟩, ?_⟩
+        rw [h4]
+        exact (hv hsel p.1).1 (List.mem_map.2 ⟨p, hpv, rfl⟩)
+    · rintro ⟨⟨h1, h2⟩, h3⟩
+      obtain ⟨p, hpv, hpn⟩ := List.mem_map.1 ((hv hsel o.key.ns).2 h3)
+      obtain ⟨i, hi, hp⟩ := (hm.vcover p hpv o).2 ⟨(hns p.1).2 ⟨h1, hpn.symm⟩, h2⟩
+      exact ⟨i, (mem_informers s.m i).2 (Or.inr ⟨p, hpv, hi⟩), hp⟩
+  | false =>
+    have hvar : s.m.varying = [] := hinv.varyingOnly hsel
+    simp only [Bool.false_eq_true, if_false, Bool.and_eq_true]
+    have hnsl : ∀ ns, ns ∈ mc.namespaces ↔
+        (mc.nss.isEmpty = true ∧ ns = none) ∨ (mc.nss.isEmpty = false ∧ ∃ n ∈ mc.nss, ns = some n) := by
+      intro ns
+      unfold MonCfg.namespaces
+      simp only [hsel, Bool.false_eq_true, if_false]
+      cases he : mc.nss.isEmpty with
+      | true => simp
+      | false =>
+        simp only [Bool.false_eq_true, if_false, List.mem_map, false_and, false_or, true_and]
+        constructor
+        · rintro ⟨n, hn, rfl⟩; exact ⟨n, (mem_dedupNames _ _).1 hn, rfl⟩
+        · rintro ⟨n, hn, rfl⟩; exact ⟨n, (mem_dedupNames _ _).2 hn, rfl⟩
+    constructor
+    · rintro ⟨i, hi, hp⟩
+      rcases (mem_informers s.m i).1 hi with hi | ⟨p, hpv, _⟩
+      · obtain ⟨⟨ns, hns', hpn⟩, hok⟩ := (hm.scover o).1 ⟨i, hi, hp⟩
+        rcases (hnsl ns).1 hns' with ⟨he, rfl⟩ | ⟨he, n, hn, rfl⟩
+        · exact ⟨⟨hpn, hok⟩, by simp [he]⟩
+        · obtain ⟨h3, h4⟩ := (hns n).1 hpn
+          refine ⟨⟨h3, hok⟩, ?_⟩
+          rw [h4, Bool.or_eq_true, List.contains_iff_mem]
+          exact Or.inr hn
+      · rw [hvar] at hpv; cases hpv
+    · rintro ⟨⟨h1, h2⟩, h3⟩
+      have : ∃ ns ∈ mc.namespaces, mc.pred ns none o = true := by
+        cases he : mc.nss.isEmpty with
+        | true => exact ⟨none, (hnsl none).2 (Or.inl ⟨he, rfl⟩), h1⟩
+        | false =>
+          rw [he, Bool.false_or, List.contains_iff_mem] at h3
+          exact ⟨some o.key.ns, (hnsl _).2 (Or.inr ⟨he, _, h3, rfl⟩), (hns _).2 ⟨h1, rfl⟩⟩
+      obtain ⟨i, hi, hp⟩ := (hm.scover o).2 ⟨this, h2⟩
+      exact ⟨i, (mem_informers s.m i).2 (Or.inl hi), hp⟩
+
+/-- **C02 `snapshot_eq_matching_partial`** (the headline, repaired code). StartMonitor follows
+AddMonitor with no cluster change in between (what `EnableKubernetesBindings` does in one breath);
+then for EVERY binding configuration, every initial cluster and every later history of object
+writes/deletes (label flips, delete+recreate, …), namespace creations, relabellings and deletions
+(and repeated Starts), with every informer having handled the events of its own watch
+(quiet cluster): the elements of `Snapshot()` are exactly the filtered images of the objects that
+currently match the binding — kind, namespaces (named / selected by label / all), names, label and
+field selector. With `snapshot_nodup`: each once, in key order. The excluded point — the cluster
+changing between the monitor's own List and the registration — is `ghost_witness`. -/
+theorem snapshot_eq_matching_partial (ridOf : Key → Nat) (srt : List Entry → List Entry)
+    (hs : SortContract ridOf srt) (mc : MonCfg) (w0 : World) (hw0 : KeysNodup Obj.key w0.objs)
+    (rest : List MStep) (e : Entry) :
+    e ∈ (runMonitor mc w0 (.start :: rest)).m.snapshot srt ↔
+      ∃ o ∈ specMatching mc (runMonitor mc w0 (.start :: rest)).w, e = mkEntry mc.cfg o := by
+  have hms := ms_run mc w0 hw0 rest
+  have hinv := minv_run mc w0 (.start :: rest)
+  generalize runMonitor mc w0 (.start :: rest) = s at hms hinv
+  have hcov := informers_cover mc s hms hinv
+  obtain ⟨_, hm, _⟩ := hms
+  have hu : Uniform mc.cfg.keepFull s.m.allEntries := by
+    intro x hx
+    rw [allEntries_eq] at hx
+    simp only [cachesOf, List.mem_flatten, List.mem_map] at hx
+    obtain ⟨l, ⟨i, hi, rfl⟩, hxl⟩ := hx
+    obtain ⟨o, rfl, _⟩ := (hinv.good i hi).2 x hxl
+    exact mkEntry_isSome _ _
+  rw [(snapshot_eq_sorted_union ridOf srt hs _ s.m hu).2.2 e, specMatching_eq]
+  constructor
+  · rintro ⟨i, hi, he⟩
+    obtain ⟨o, ho, rfl⟩ := (tracks_mem (hm.synced i hi).2 e).1 he
+    rw [mkEntry_key] at ho
+    unfold matching at ho
+    cases hk : kget Obj.key s.w.objs o.key with
+    | none => simp [hk] at ho
+    | some o' =>
+      rw [hk] at ho
+      have hp : mc.pred i.ns i.name o' = true ∧ o' = o := by
+        by_cases hq : mc.pred i.ns i.name o' = true
+        · simp [Option.filter, hq] at ho; exact ⟨hq, ho⟩
+        · simp [Option.filter, hq] at ho
+      obtain ⟨hp, rfl⟩ := hp
+      exact ⟨o', List.mem_filter.2 ⟨(mem_of_kget _ _ _ _ hk).1, (hcov o').1 ⟨i, hi, hp⟩⟩, rfl⟩
+  · rintro ⟨o, ho, rfl⟩
+    obtain ⟨hmem, hc⟩ := List.mem_filter.1 ho
+    obtain ⟨i, hi, hp⟩ := (hcov o).2 hc
+    refine ⟨i, hi, ?_⟩
+    have ht := (hm.synced i hi).2
+    have := ht.2 o.key
+    unfold matching at this
+    rw [kget_of_mem Obj.key _ o hm.objsNodup hmem] at this
+    simp only [Option.filter, hp, if_true, Option.map_some] at this
+    exact (mem_of_kget _ _ _ _ this).1
+
+/-- non-vacuity: a namespace.labelSelector binding with a name selector; a namespace starts
+matching, objects come and go, the namespace stops matching. -/
+example :
+    let mc : MonCfg := { cfg := { keepFull := false, flt := fun c => c / 10, chk := id }, kind := 1,
+                         names := [1, 2], nsSel := true }
+    let s := runMonitor mc { objs := [⟨⟨5, 1, 1⟩, 10, 0⟩, ⟨⟨6, 1, 1⟩, 20, 0⟩], nss := [(5, 1), (6, 0)] }
+      [.start, .ns 6 (some 1), .obj (.set ⟨⟨6, 1, 2⟩, 30, 0⟩), .obj (.del ⟨5, 1, 1⟩), .ns 5 (some 0),
+       .obj (.set ⟨⟨6, 1, 3⟩, 40, 0⟩)]
+    (s.m.snapshot (modelSort (fun k => k.ns * 10 + k.name))).map (·.fr) = [2, 3] ∧
+    (specMatching mc s.w).map (·.content) = [20, 30] := by decide
+
 /-- **witness (recorded finding `ghost-after-gap-delete`)**: object `g` is listed by the informer's
 own `List`, deleted before the informer is registered (`AddMonitor` … `StartMonitor`); the replay at
 registration carries no `Deleted`, so the cache keeps `g` for ever although the cluster is empty. -/
